@@ -218,7 +218,8 @@ def c11_tower(r, seed, tier, model_ok):
         k = R.random()
         if d <= 0 or k < .25: return E(integer())
         if k < .40: return call("ㅅㅅ", [num(d - 1)])
-        if k < .45: return call("ㅂ", ["ㅂ", "ㅅ", R.choice(["ㅁ", "ㄴ"])])
+        if k < .43: return call("ㅂ", ["ㅂ", "ㅅ", R.choice(["ㅁ", "ㄴ", "ㅂ", "ㅈ"])])                              # inf, nan, pi, e
+        if k < .45: return call(call("ㅂ", ["ㅂ", "ㅅ", "ㅈㄷ"]), [num(d - 1)])                                  # absolute value
         if k < .50: return call("ㅂㅅ", [num(d - 1)] + ([num(d - 1)] if R.random() < .7 else []))          # complex(real[, imaginary]) - either part may itself be complex
         if k < .65: return call("ㄱ", [num(d - 1) for _ in range(R.randrange(1, 5))])
         if k < .90: return call("ㄷ", [num(d - 1) for _ in range(R.randrange(1, 6))])
@@ -228,7 +229,8 @@ def c11_tower(r, seed, tier, model_ok):
     def prog():
         k = R.random(); d = R.randrange(1, 5)
         if k < .5: return num(d)
-        if k < .7: return call("ㅈ", [num(d), num(d)])
+        if k < .65: return call("ㅈ", [num(d), num(d)])
+        if k < .7: return call(call("ㅂ", ["ㅂ", "ㅅ", R.choice(["ㄴㄴ", "ㅁㄴ"])]), [num(d)])                    # is NaN / is infinite
         if k < .9: return call("ㄴ", [num(d), num(d)])
         return call("ㅁㄹ", [num(d), num(d), num(d)])
     cases = [dict(text=prog(), floats=True, trace=False) for _ in range(n)]
